@@ -184,21 +184,29 @@ def setAttrIdx (e : Elem) (ctx : Ctx) (qname : String) : Option Nat :=
   | none => e.attrs.findIdx? fun a => a.pfx.isNone && a.name == (splitPrefix qname).2
   | some _ => getAttrIdx e ctx qname
 
+/-- The attribute list after `Element.set(name, value)`: the attribute it names gets the value, in
+place; when there is none a new one is appended. -/
+def attrsAfterSet (e : Elem) (ctx : Ctx) (qname value : String) : List Attr :=
+  match setAttrIdx e ctx qname with
+  | some k => e.attrs.set k { (e.attrs.getD k ⟨none, "", ""⟩) with value := value }
+  | none => let sp := splitPrefix qname; e.attrs ++ [⟨sp.1, sp.2, value⟩]
+
+/-- The attribute list after `Element.unset(name)`: the one attribute `getAttribute(name)` finds is
+removed; nothing happens when there is none. -/
+def attrsAfterUnset (e : Elem) (ctx : Ctx) (qname : String) : List Attr :=
+  match getAttrIdx e ctx qname with
+  | some k => e.attrs.eraseIdx k
+  | none => e.attrs
+
 /-- `Element.set(name, value)` -/
 def Forest.setAttr (f : Forest) (i : Nat) (qname value : String) : Forest :=
   let ctx := f.ctxOf i
-  f.update i fun e =>
-    match setAttrIdx e ctx qname with
-    | some k => e.setAttrs (e.attrs.set k { (e.attrs.getD k ⟨none, "", ""⟩) with value := value })
-    | none => let sp := splitPrefix qname; e.setAttrs (e.attrs ++ [⟨sp.1, sp.2, value⟩])
+  f.update i fun e => e.setAttrs (attrsAfterSet e ctx qname value)
 
 /-- `Element.unset(name)` -/
 def Forest.unsetAttr (f : Forest) (i : Nat) (qname : String) : Forest :=
   let ctx := f.ctxOf i
-  f.update i fun e =>
-    match getAttrIdx e ctx qname with
-    | some k => e.setAttrs (e.attrs.eraseIdx k)
-    | none => e
+  f.update i fun e => e.setAttrs (attrsAfterUnset e ctx qname)
 
 def Forest.setText (f : Forest) (i : Nat) (t : String) : Forest := f.update i (·.setText (some t))
 
